@@ -188,23 +188,14 @@ Print Assumptions unsorted_append_order_sensitive_refuted.
 
 (* ---- the inventories translated from the goa source on this run ---- *)
 
-(* every `range` over a map in the generator packages has an order-insensitive shape,
-   except the recorded finding (openapi:summary / swagger:summary aliases) *)
-Theorem all_sites_order_insensitive_partial (s : site) :
-  In s mapranges -> is_known_sensitive (sshape s) = false -> order_insensitive (sshape s) = true.
-Proof. exact (sites_partial s). Qed.
-Print Assumptions all_sites_order_insensitive_partial.
-
-(* the sites excluded above are exactly these seven *)
-Theorem all_sites_order_insensitive_refuted :
-  known_sensitive_names =
-    [ "http/codegen/openapi/v2:summaryFromExpr#0"; "http/codegen/openapi/v2:summaryFromExpr#1";
-      "http/codegen/openapi/v2:summaryFromExpr#2"; "http/codegen/openapi/v2:summaryFromExpr#3";
-      "http/codegen/openapi/v2:summaryFromMeta#0"; "http/codegen/openapi/v3:buildOperation#0";
-      "http/codegen/openapi/v3:buildFileServerOperation#0" ]%string
-  /\ exists s, In s mapranges /\ order_insensitive (sshape s) = false.
-Proof. exact (sites_refuted_l). Qed.
-Print Assumptions all_sites_order_insensitive_refuted.
+(* every `range` over a map in the generator packages (eval, expr, codegen/*, http/codegen/*,
+   grpc/codegen, cmd/goa) has an order-insensitive shape: full statement, no exclusions
+   (the openapi:summary / swagger:summary loops were repaired: the summary is looked up by
+   key, openapi:summary first) *)
+Theorem all_sites_order_insensitive (s : site) :
+  In s mapranges -> order_insensitive (sshape s) = true.
+Proof. exact (sites_all s). Qed.
+Print Assumptions all_sites_order_insensitive.
 
 (* every codegen.File literal reachable from the example generators sets SkipExist: true,
    and none reachable from the gen generators does *)
